@@ -462,6 +462,9 @@ int reb_simulation_remove_particle(struct reb_simulation* const r, int index, in
                 r->free_particle_ap(&r->particles[index]);
             }
 		    r->particles[index] = r->particles[r->N];
+            if(r->N_active>(int)r->N){
+                r->N_active = r->N; // There cannot be more active particles than particles.
+            }
         }
 	}
 
